@@ -309,6 +309,13 @@ func init() {
 		}
 		hr := FindFunc(hd, "ReplicaHandler", "Replica")
 		sb.WriteString("def handlerAssigns : List String := " + LeanStrList(c08Assigns(hr, "resp.")) + "\n")
+		// the stream handler's branch conditions and calls (a closed partition is answered, never healed), and
+		// partition.recovery's (every consumer group of the log gets its channel back, unconditionally)
+		sb.WriteString("def handlerConds : List String := " + LeanStrList(c08CondTexts(hr)) + "\n")
+		sb.WriteString("def handlerCalls : List String := " + LeanStrList(c08Calls(hr)) + "\n")
+		rec := FindFunc(pt, "partition", "recovery")
+		sb.WriteString("def recoveryConds : List String := " + LeanStrList(c08CondTexts(rec)) + "\n")
+		sb.WriteString("def recoveryCalls : List String := " + LeanStrList(c08Calls(rec)) + "\n")
 		sb.WriteString("def handlerReplicaLogArgs : List String := " + LeanStrList([]string{
 			c08Text(c08CallArg(hr, "p.ReplicaLog", 0)), c08Text(c08CallArg(hr, "p.ReplicaLog", 1))}) + "\n")
 		sb.WriteString("def handlerResetArg : String := " + fmt.Sprintf("%q", c08Text(c08CallArg(FindFunc(hd, "ReplicaHandler", "Reset"), "p.ResetReplicaIndex", 0))) + "\n\n")
